@@ -297,6 +297,48 @@ AllWrittenIsFinal ==
         \A f \in 1 .. NF(lay) : ~IsPad(lay, f) => disk[f] = FinalDisk(lay)[f]
 
 -----------------------------------------------------------------------------
+(* torrent creation from a directory tree (metainfo.NewInfoBytes)           *)
+(*                                                                         *)
+(* A TREE is a sequence of paths; a path is a non-empty sequence of         *)
+(* component ids (small integers; the driver maps id k to the k-th name of  *)
+(* a table sorted in byte order, so  <  on ids is the order in which        *)
+(* filepath.Walk visits the entries of one directory).  Files only: a       *)
+(* directory exists because a file lives below it.  The CREATION ARGUMENT   *)
+(* (kind) is one of                                                         *)
+(*   "file"   the single regular file itself is given                       *)
+(*   "dir"    the directory is given (whatever the number and depth of the  *)
+(*            files below it: one file directly inside, one file two levels *)
+(*            down, several files, ...)                                     *)
+(*   "paths"  the directory is given as root and its top-level entries are  *)
+(*            given one by one (in directory order), name = the directory's *)
+(* The files of the created torrent are the files of the tree in walk order;*)
+(* "that same directory" = the parent of the argument is the storage root.  *)
+
+PathLess(p, q) ==            \* component-wise lexical order (NOT the order of the joined strings)
+    \/ \E i \in 1 .. Min(Len(p), Len(q)) : p[i] < q[i] /\ \A j \in 1 .. (i - 1) : p[j] = q[j]
+    \/ Len(p) < Len(q) /\ \A j \in 1 .. Len(p) : p[j] = q[j]
+IsPrefix(p, q) == Len(p) < Len(q) /\ \A j \in 1 .. Len(p) : p[j] = q[j]
+\* no name is both a file and a directory, no file twice, at least one file
+ValidTree(t) == /\ Len(t) >= 1
+                /\ \A j \in 1 .. Len(t) : Len(t[j]) >= 1
+                /\ \A j, k \in 1 .. Len(t) : j # k => t[j] # t[k] /\ ~IsPrefix(t[j], t[k])
+\* positions of the tree's files in walk order
+WalkOrder(t) == SortSeq([j \in 1 .. Len(t) |-> j], LAMBDA a, b : PathLess(t[a], t[b]))
+TopLevel(t)  == {t[j][1] : j \in 1 .. Len(t)}
+\* which argument kinds make sense for a tree
+KindOK(kind, t) == CASE kind = "file"  -> Len(t) = 1 /\ Len(t[1]) = 1
+                     [] kind = "dir"   -> TRUE
+                     [] kind = "paths" -> Cardinality(TopLevel(t)) >= 2
+                     [] OTHER          -> FALSE
+\* @obligation C02.roundtrip.files   the created torrent lists the files of the tree, in walk order, with their lengths
+CreatedLens(t, lens) == LET o == WalkOrder(t) IN [k \in 1 .. Len(t) |-> lens[o[k]]]
+\* the walk order is a strict total order on a valid tree (so the expectation above is well defined)
+ThmWalk(t) == LET o == WalkOrder(t) IN
+    /\ Len(o) = Len(t) /\ {o[k] : k \in 1 .. Len(o)} = 1 .. Len(t)
+    /\ \A j, k \in 1 .. Len(t) : j # k => (PathLess(t[j], t[k]) <=> ~PathLess(t[k], t[j]))
+    /\ \A k \in 1 .. (Len(o) - 1) : PathLess(t[o[k]], t[o[k + 1]])
+
+-----------------------------------------------------------------------------
 (* theorems about the oracle itself (checked by TLC for every layout of the *)
 (* enumerated space, see MC_Geometry)                                       *)
 
